@@ -667,7 +667,7 @@ type dRes struct {
 	r *s3c.Resp
 }
 
-func laneDelete(c *ev.Ctx, noOTmp bool, versioned bool) {
+func laneDelete(c *ev.Ctx, noOTmp bool, versioned bool, sidecar bool) {
 	cfgName := "otmpfile"
 	if noOTmp {
 		cfgName = "named-temp"
@@ -675,13 +675,16 @@ func laneDelete(c *ev.Ctx, noOTmp bool, versioned bool) {
 	if versioned {
 		cfgName += "+versioned"
 	}
+	if sidecar {
+		cfgName += "+sidecar"
+	}
 	ctl, err := gate.New(gw.Scratch())
 	if err != nil {
 		c.Inconclusive(err.Error())
 		return
 	}
 	defer ctl.Close()
-	env, err := fx.New("c16d", gw.Config{NoOTmp: noOTmp, Versioning: versioned, Env: ctl.Env("*")}, 2)
+	env, err := fx.New("c16d", gw.Config{NoOTmp: noOTmp, Versioning: versioned, Sidecar: sidecar, Env: ctl.Env("*")}, 2)
 	if err != nil {
 		c.Inconclusive("gateway start: " + err.Error())
 		return
@@ -691,11 +694,14 @@ func laneDelete(c *ev.Ctx, noOTmp bool, versioned bool) {
 	nb := 0
 	mkBucket := func() (string, bool) {
 		nb++
-		b := fmt.Sprintf("dbk%s%s%d", map[bool]string{false: "o", true: "n"}[noOTmp], map[bool]string{false: "", true: "v"}[versioned], nb)
+		b := fmt.Sprintf("dbk%s%s%s%d", map[bool]string{false: "o", true: "n"}[noOTmp], map[bool]string{false: "", true: "v"}[versioned], map[bool]string{false: "", true: "s"}[sidecar], nb)
 		if r := cl[0].CreateBucket(b); !r.OK() {
 			c.Inconclusive("create bucket: " + r.String())
 			return "", false
 		}
+		// a setting that must be what it is as long as the bucket exists (a DeleteBucket that fails deletes nothing)
+		tb := s3c.TaggingXML(map[string]string{"keep": "me"})
+		cl[0].Sub("PUT", b, "", "tagging=", tb, "Content-MD5", s3c.MD5B64(tb))
 		// make .sgwtmp exist (first object goes through the fallback) and empty the bucket again
 		cl[0].PutObject(b, "warm", []byte("x"))
 		cl[0].DeleteObject(b, "warm")
@@ -775,6 +781,14 @@ func laneDelete(c *ev.Ctx, noOTmp bool, versioned bool) {
 		base := sched
 		hb := cl[0].HeadBucket(b)
 		exists := hb.Status == 200
+		if exists && !ok2(delR) && upName != "CreateBucket" {
+			// the delete failed: the bucket is the one that was created, with what was set on it
+			tg := cl[0].Sub("GET", b, "", "tagging=", nil)
+			if tm, _ := s3c.ParseTagging(tg.Body); !tg.OK() || tm["keep"] != "me" {
+				det["get_bucket_tagging"] = tg.String()
+				c.Violation(base+":bucket-settings-lost-although-delete-failed", "D/"+id, det)
+			}
+		}
 		if upName == "CreateBucket" {
 			// either outcome order is fine, but the bucket must be whole if it exists
 		} else if upName == "CreateMultipartUpload" {
@@ -1078,8 +1092,9 @@ func Run(c *ev.Ctx) int {
 	for _, no := range []bool{false, true} {
 		no := no
 		if c.Want("D") {
-			run(func() { laneDelete(c, no, false) })
-			run(func() { laneDelete(c, no, true) })
+			run(func() { laneDelete(c, no, false, false) })
+			run(func() { laneDelete(c, no, true, false) })
+			run(func() { laneDelete(c, no, false, true) })
 		}
 	}
 	wg.Wait()
